@@ -21,6 +21,7 @@ def main():
     from rv import bridge
     from rv.core import Ctx, MonitorViolation
     out = {"ok": False}
+    ctx = None
     try:
         bridge.import_tucan(job["repo"])
         ctx = Ctx(job["prop"], job["tier"], job["seed"], job["shard"], job["nshards"], job["repo"])
@@ -34,10 +35,10 @@ def main():
             mod.run(ctx)
         out = ctx.result()
         out["ok"] = True
-    except RuntimeError as e:
-        out = {"ok": False, "error": str(e), "trace": traceback.format_exc()}
     except BaseException as e:
-        out = {"ok": False, "error": f"{type(e).__name__}: {e}", "trace": traceback.format_exc()}
+        # the shard is lost (-> inconclusive), but what it had already observed (violations, counters) is not
+        out = ctx.result() if ctx is not None else {}
+        out.update({"ok": False, "partial": ctx is not None, "error": str(e) if isinstance(e, RuntimeError) else f"{type(e).__name__}: {e}", "trace": traceback.format_exc()})
     with open(job["out"], "w") as f:
         json.dump(out, f, default=str)
     return 0
